@@ -1,6 +1,7 @@
 package eng
 
 import (
+	"sort"
 	"fmt"
 	"go/types"
 	"strings"
@@ -350,7 +351,10 @@ func (e *Engine) callFunction(st *State, fr *Frame, x *ssa.Call, callee *ssa.Fun
 		return nil, false
 	}
 	spec := e.specFor(callee)
-	inline := callee.Parent() != nil && spec == nil // closures
+	inline := callee.Parent() != nil // closures called directly are executed in place (their own contract, if any, is for the standalone proof)
+	if inline {
+		spec = nil
+	}
 	if spec != nil && spec.Inline {
 		inline = true
 	}
@@ -684,11 +688,14 @@ func (e *Engine) callOpaque(st *State, fr *Frame, x *ssa.Call, fv ssa.Value, f V
 				}
 			}
 			tname := "opaque"
-			if u, ok := fv.(*ssa.UnOp); ok { // callback loaded from a field: logged under the field's name
+			if u, ok := fv.(*ssa.UnOp); ok { // callback loaded from a field / captured variable: logged under its name
 				if fa, ok := u.X.(*ssa.FieldAddr); ok {
 					if stt, ok := under(deref(fa.X.Type())).(*types.Struct); ok {
 						tname = stt.Field(fa.Field).Name()
 					}
+				}
+				if fvv, ok := u.X.(*ssa.FreeVar); ok {
+					tname = fvv.Name()
 				}
 			}
 			if cb, ok := root.spec.Callbacks[tname]; ok {
@@ -815,11 +822,18 @@ func (e *Engine) applyContractSig(st *State, fr *Frame, x *ssa.Call, name string
 		}
 	}
 	if spec.ModAny {
-		panic(unsupported("call to " + name + " whose contract says 'modifies anything'"))
+		root := st.frames[0]
+		if root.spec == nil || !root.spec.ModAny {
+			panic(unsupported("call to " + name + " whose contract says 'modifies anything' from a function that claims a frame"))
+		}
 	}
 	e.chanInterference(st)
 	oldHeaps := copyHeaps(st.heaps)
 	oldAlloc := st.alloc
+	if spec.ModAny {
+		// the caller claims no frame either: everything on the heap is forgotten
+		e.havocAllHeaps(st)
+	}
 	// havoc the frame (all regions are evaluated in the pre-state first)
 	var regs []region
 	for _, m := range spec.Modifies {
@@ -1071,4 +1085,128 @@ func (e *Engine) onStack(st *State, fn *ssa.Function) bool {
 		}
 	}
 	return false
+}
+
+// havocAllHeaps forgets the contents of every heap (a callee that may run arbitrary code).
+// Non-escaping locals live in cells and are not affected; closed channels stay closed.
+func (e *Engine) havocAllHeaps(st *State) {
+	e.chanInterference(st)
+	var names []string
+	for n := range st.heaps {
+		names = append(names, n)
+	}
+	sort.Strings(names)
+	for _, n := range names {
+		if n == chanHeap || strings.HasPrefix(n, "RV$") || n == strHeap {
+			continue // monotone (handled above) / ghost iteration state / immutable string contents
+		}
+		if e.immutableHeap(n) {
+			continue // field declared immutable (assigned only during construction; checked syntactically)
+		}
+		st.heaps[n] = e.fresh(n, st.heaps[n].S)
+	}
+	na := e.fresh("alloc", IntS)
+	st.assume(Ge(na, st.alloc))
+	st.alloc = na
+}
+
+// immutableHeap: does the pointee heap `name` hold a field declared `immutable T.f`?
+func (e *Engine) immutableHeap(name string) bool {
+	if !strings.HasPrefix(name, "P$") {
+		return false
+	}
+	rest := name[2:]
+	dot := strings.Index(rest, ".")
+	if dot < 0 {
+		return false
+	}
+	base, path := rest[:dot], rest[dot+1:]
+	for sp, ps := range e.Specs {
+		for _, im := range ps.Immutable {
+			want := sp.Pkg.Name() + "_" + im.Type
+			if base != want && !strings.HasPrefix(base, want+"s_") {
+				continue
+			}
+			if path == im.Field || strings.HasPrefix(path, im.Field+".") {
+				if why := e.immutableViolated(sp, im); why != "" {
+					panic(unsupported("immutable " + im.Type + "." + im.Field + ": " + why))
+				}
+				e.Assumptions["field "+sp.Pkg.Name()+"."+im.Type+"."+im.Field+" is assigned only while its object is constructed (checked: every store to it in the module targets a local allocation)"] = true
+				return true
+			}
+		}
+	}
+	return false
+}
+
+var immutableChecked = map[string]string{}
+
+// immutableViolated scans the module for a store to the field that does not target a local allocation.
+func (e *Engine) immutableViolated(sp *ssa.Package, im ImmutableSpec) string {
+	key := sp.Pkg.Path() + "." + im.Type + "." + im.Field
+	if r, ok := immutableChecked[key]; ok {
+		return r
+	}
+	res := ""
+	var visit func(f *ssa.Function)
+	visit = func(f *ssa.Function) {
+		for _, b := range f.Blocks {
+			for _, in := range b.Instrs {
+				st, ok := in.(*ssa.Store)
+				if !ok {
+					continue
+				}
+				fa, ok := st.Addr.(*ssa.FieldAddr)
+				if !ok {
+					continue
+				}
+				pt, ok := fa.X.Type().Underlying().(*types.Pointer)
+				if !ok {
+					continue
+				}
+				n, ok := pt.Elem().(*types.Named)
+				if !ok {
+					continue
+				}
+				if o := n.Origin(); o != nil {
+					n = o
+				}
+				if n.Obj().Pkg() != sp.Pkg || n.Obj().Name() != im.Type {
+					continue
+				}
+				stt, ok := n.Underlying().(*types.Struct)
+				if !ok || fa.Field >= stt.NumFields() || stt.Field(fa.Field).Name() != im.Field {
+					continue
+				}
+				if _, isAlloc := fa.X.(*ssa.Alloc); !isAlloc {
+					res = "assigned in " + f.String()
+				}
+			}
+		}
+		for _, a := range f.AnonFuncs {
+			visit(a)
+		}
+	}
+	for _, p := range e.Prog.AllPackages() {
+		if !(p.Pkg.Path() == ModPath || strings.HasPrefix(p.Pkg.Path(), ModPath+"/")) {
+			continue
+		}
+		for _, m := range p.Members {
+			if f, ok := m.(*ssa.Function); ok {
+				visit(f)
+			}
+			if tn, ok := m.(*ssa.Type); ok {
+				for _, t := range []types.Type{tn.Type(), types.NewPointer(tn.Type())} {
+					ms := e.Prog.MethodSets.MethodSet(t)
+					for i := 0; i < ms.Len(); i++ {
+						if f := e.Prog.MethodValue(ms.At(i)); f != nil && f.Pkg == p {
+							visit(f)
+						}
+					}
+				}
+			}
+		}
+	}
+	immutableChecked[key] = res
+	return res
 }
